@@ -26,7 +26,7 @@ def configs(ctx):
                 for wiring in ("library", "run"):
                     combos = [(n, t, a) for (n, t) in grid_nt for a in alphas]
                     ctx.rng.shuffle(combos)
-                    k = (1 if npts == 1 else 2) if ctx.quick else (3 if npts == 1 else 8)
+                    k = (1 if npts == 1 else 2) if ctx.quick else (3 if npts == 1 else 5)
                     chosen = combos[:k]
                     if npts == 2 and (2, 0.5, 1.0) not in chosen:
                         chosen.append((2, 0.5, 1.0))
@@ -42,7 +42,7 @@ def configs(ctx):
             for wiring in ("library", "run"):
                 n, t = ctx.rng.choice([(2, 0.5), (2, 1.0), (2, 0.0)]) if ctx.quick else (2, 0.5)
                 out.append(dict(move="pg", npts=3, kind=kind, prop_op=pop, data_op=dop, N=n, thr=t, alpha=ctx.rng.choice([0.3, 1.0, 2.5]), wiring=wiring))
-                if not ctx.quick:
+                if not ctx.quick and wiring == "library" and dop == 0.0:
                     out.append(dict(move="pg", npts=3, kind=kind, prop_op=pop, data_op=dop, N=3, thr=ctx.rng.choice([0.0, 1.0]), alpha=ctx.rng.choice([0.3, 2.5]), wiring=wiring))
     if not ctx.quick:
         # four data points: 262 states without outliers
@@ -67,7 +67,7 @@ def run(ctx):
     try:
         for cfg in cfgs:
             npts = cfg["npts"]
-            for flat in ((True,) if cfg.get("flat_only") else (False,) if ctx.quick or npts >= 3 else (False, True)):
+            for flat in ((True,) if cfg.get("flat_only") else (False,) if ctx.quick or npts >= 3 or cfg["N"] >= 3 else (False, True)):
                 key = (npts, flat)
                 if key not in datasets:
                     datasets[key] = rational_values(ctx.rng, npts, 2 if flat else (1 if npts >= 3 else ctx.rng.choice([1, 2])), 3 if npts >= 3 else 4, flat=flat)
